@@ -116,6 +116,19 @@ PROPS = {
                 "non-trivial = an accepted operation",
         "trusted": ["mint-one-token-and-drop-authority and freezing are token-program CPIs and are not executed; open_position's own handlers are covered through validate_tick_range only"],
     },
+    "C13": {
+        "lean_modules": ["WP.Props.C13"],
+        "lean_support": [],
+        "families": [("dyn", 20000, 1500000), ("dynx", 0, 0), ("hist", 6000, 150000)],
+        "history": True,
+        "rule": "dyn: random op sequences (initialize / modify / de-initialize / uninit->uninit updates, get, next-initialized in both directions incl. the shifted search range and just outside it, "
+                "off-grid and out-of-array ticks) over all 88 slots, spacings and start indexes incl. the arrays straddling the minimum / maximum tick, applied to FIVE real arrays: dynamic via Anchor, dynamic via "
+                "Pinocchio, dynamic via both alternately, fixed via Anchor, fixed via Pinocchio, and to an abstract slot map; dynx: EXHAUSTIVE over every subset of the representative slots "
+                "{0,1,63,64,65,86,87} + one more, initialized ascending / descending / shuffled, each representative then queried, toggled, modified and toggled back; hist: whole-pool histories whose "
+                "dynamic arrays' account length and rent units are driven by the TickArrayUpdate the managers return; non-trivial = a successful update (distinct by slot and bitmap)",
+        "trusted": ["account realloc and lamport moves (increase/decrease_tick_array_size, transfer_rent_*) are runtime calls: the DECISIONS (TickArrayUpdate) are executed and checked, the resize itself is not",
+                    "updates with initialized = false carry default fields (proved for next_tick_modify_liquidity_update: modify_update_canon); a fixed array would store other values verbatim"],
+    },
     "C19": {
         "lean_modules": ["WP.Props.C19"],
         "lean_support": [],
